@@ -382,8 +382,17 @@ def bad_dependency(rng, doc):
     elif k < 0.65:
         if len(ss) < 2:
             return False
-        other = rng.choice([n for n in names if n != s.get("name")] or names)
-        s["dependencies"] = [{"dependsOn": other}, {"dependsOn": other}]
+        others = [n for n in names if n != s.get("name")] or names
+        other = rng.choice(others)
+        if len(others) >= 2 and rng.random() < 0.6:
+            # a repeat among three or more dependencies, at every position (first / middle / last, and the name that
+            # sorts first / last): the repeat is a repeat wherever it stands
+            deps = rng.sample(others, min(len(others), rng.choice([2, 3])))
+            dup = rng.choice([min(deps), max(deps), rng.choice(deps)])
+            deps.insert(rng.randint(0, len(deps)), dup)
+            s["dependencies"] = [{"dependsOn": d} for d in deps]
+        else:
+            s["dependencies"] = [{"dependsOn": other}, {"dependsOn": other}]
     elif k < 0.75:
         s["dependencies"] = []
     else:
